@@ -78,7 +78,7 @@ func (f *Fn) Defs() map[types.Object][]defSite {
 			j := 0
 			for _, fl := range ft.Results.List {
 				for _, n := range fl.Names {
-					add(n, defSite{kind: defOpaque, name: fmt.Sprintf("%sr%d", prefix, j)})
+					add(n, defSite{kind: defOpaque, zero: true, name: fmt.Sprintf("%sr%d", prefix, j)})
 					j++
 				}
 			}
@@ -348,6 +348,9 @@ func (f *Fn) canon(e ast.Expr, depth int, busy map[types.Object]bool) string {
 	case *ast.CallExpr:
 		if id, ok := x.Fun.(*ast.Ident); ok && id.Name == "ok" && info.Uses[id] == nil && len(x.Args) == 1 {
 			return "ok(" + f.canonNoAssert(Unparen(x.Args[0]), depth, busy) + ")"
+		}
+		if id, ok := x.Fun.(*ast.Ident); ok && strings.HasPrefix(id.Name, "tuple#") && info.Uses[id] == nil && len(x.Args) == 1 {
+			return f.canon(x.Args[0], depth, busy) + strings.TrimPrefix(id.Name, "tuple")
 		}
 		if tv, ok := info.Types[x.Fun]; ok && tv.IsType() && len(x.Args) == 1 {
 			return f.canon(x.Args[0], depth, busy) // conversion: transparent
